@@ -1,7 +1,240 @@
 import ComposeVerif.Ops.Common
-/-! line-protocol ops for C01 (filled in by the property's owner) -/
+import ComposeVerif.Model.C01Stages
+import ComposeVerif.Model.C01Cycles
+import ComposeVerif.Model.C01Reset
+/-! line-protocol ops for C01: stage walkers, cycle tracker, extends / include / depends_on loops -/
+open Lean
 namespace CV.Ops.C01
+open CV.C01
 
-def handlers : List (String × Handler) := []
+/-! ### `GoVal` on the wire: the `Val` format plus `{"nl":true}` (nil slice) and `{"im":[[k,v],…]}` -/
+
+partial def goValOfJson : Json → Except String GoVal
+  | .null => .ok .null
+  | .obj o =>
+    match o.toList with
+    | [("b", .bool b)] => .ok (.bool b)
+    | [("i", .str s)] => match s.toInt? with
+      | some i => .ok (.int i)
+      | none => .error "bad int"
+    | [("f", .str s)] => .ok (.float s)
+    | [("s", .str s)] => .ok (.str s)
+    | [("nl", _)] => .ok .nilseq
+    | [("l", .arr xs)] => do
+        let ys ← xs.toList.mapM goValOfJson
+        pure (.seq ys)
+    | [("l", .null)] => .ok (.seq [])
+    | [("m", .arr kvs)] => do
+        let ys ← kvs.toList.mapM fun kv => match kv with
+          | .arr #[.str k, v] => do
+            let v' ← goValOfJson v
+            pure (k, v')
+          | _ => .error "bad entry"
+        pure (.map ys)
+    | [("m", .null)] => .ok (.map [])
+    | [("im", .arr kvs)] => do
+        let ys ← kvs.toList.mapM fun kv => match kv with
+          | .arr #[k, v] => do
+            let k' ← goValOfJson k
+            let v' ← goValOfJson v
+            pure (k', v')
+          | _ => .error "bad entry"
+        pure (.imap ys)
+    | [("im", .null)] => .ok (.imap [])
+    | _ => .error "bad node"
+  | _ => .error "bad node"
+
+def sortKVs (kvs : List (String × Json)) : List (String × Json) :=
+  (kvs.toArray.qsort (fun a b => a.1 < b.1)).toList
+
+partial def goValToJson : GoVal → Json
+  | .null => .null
+  | .bool b => Json.mkObj [("b", .bool b)]
+  | .int i => Json.mkObj [("i", .str (ToString.toString i))]
+  | .float s => Json.mkObj [("f", .str s)]
+  | .str s => Json.mkObj [("s", .str s)]
+  | .nilseq => Json.mkObj [("nl", .bool true)]
+  | .seq xs => Json.mkObj [("l", .arr (xs.map goValToJson).toArray)]
+  | .map kvs => Json.mkObj [("m", .arr ((sortKVs (kvs.map fun (k, v) => (k, goValToJson v))).map fun (k, v) => Json.arr #[.str k, v]).toArray)]
+  | .imap kvs => Json.mkObj [("im", .arr (kvs.map fun (k, v) => Json.arr #[goValToJson k, goValToJson v]).toArray)]
+
+def bad (s : String) : Json := Json.mkObj [("bad", s)]
+
+def outJson (f : α → Json) : Out α → Json
+  | .ok a => Json.mkObj [("ok", f a)]
+  | .err c => Json.mkObj [("err", c)]
+  | .panic s => Json.mkObj [("panic", s)]
+
+def convertOp : Handler := fun args =>
+  match goValOfJson (getObj args "tree") with
+  | .error e => bad e
+  | .ok t =>
+    match convert t with
+    | .ok v => Json.mkObj [("ok", goValToJson v)]
+    | .error c => Json.mkObj [("err", c)]
+
+def convertTopOp : Handler := fun args =>
+  match goValOfJson (getObj args "tree") with
+  | .error e => bad e
+  | .ok t => outJson (fun kvs => goValToJson (.map kvs)) (if getBool args "parseYAML" then parseYAMLTop t else convertTop t)
+
+def fixEmptyOp : Handler := fun args =>
+  match goValOfJson (getObj args "tree") with
+  | .error e => bad e
+  | .ok t => Json.mkObj [("ok", goValToJson (fixEmpty t))]
+
+def patsOf (args : Json) : List (List String) :=
+  (getStrList args "pats").map (fun s => s.splitOn ".")
+
+def omitEmptyOp : Handler := fun args =>
+  match goValOfJson (getObj args "tree") with
+  | .ok (.map kvs) => outJson (fun kvs => goValToJson (.map kvs)) (omitEmptyTop (patsOf args) kvs)
+  | .ok t => Json.mkObj [("ok", goValToJson (omitEmpty (patsOf args) t TPath.root))]
+  | .error e => bad e
+
+/-! ### cycle tracker -/
+
+def refsOf (j : Json) : List Ref :=
+  match j with
+  | .arr a => a.toList.filterMap fun e => match e with
+    | .arr #[.str f, .str s] => some ⟨f, s⟩
+    | _ => none
+  | _ => []
+
+/-- add the references one after the other; report the index of the first refusal -/
+def trackerRun : List Ref → Tracker → Nat → Json
+  | [], _, n => Json.mkObj [("ok", n)]
+  | r :: rest, t, n =>
+    match t.add r with
+    | none => Json.mkObj [("err", "circular"), ("at", n)]
+    | some t' => trackerRun rest t' (n + 1)
+
+def trackerOp : Handler := fun args => trackerRun (refsOf (getObj args "refs")) [] 0
+
+/-! ### extends -/
+
+open CV.C01.Ext in
+def fldOfJson : Json → Fld
+  | .null => .absent
+  | .obj o => match o.toList with
+    | [("s", .str s)] => .str s
+    | _ => .other
+  | _ => .other
+
+open CV.C01.Ext in
+def svcOfJson : Json → Svc
+  | .null => .null
+  | .str _ => .notMap
+  | j =>
+    match j.getObjVal? "ext" with
+    | .ok e =>
+      match e.getObjVal? "str" with
+      | .ok (.str r) => .ext (.str r)
+      | _ =>
+        match e.getObjVal? "map" with
+        | .ok m => .ext (.map (fldOfJson (getObj m "service")) (fldOfJson (getObj m "file")))
+        | _ => .ext .other
+    | _ => .plain
+
+/-- `[["name", svc], …]` -/
+def servicesOfJson : Json → Ext.Services
+  | .arr a => a.toList.filterMap fun e => match e with
+    | .arr #[.str n, s] => some (n, svcOfJson s)
+    | _ => none
+  | _ => []
+
+open CV.C01.Ext in
+def fsOfJson : Json → Ext.FS
+  | .arr a => a.toList.filterMap fun e => match e with
+    | .arr #[.str n, .str "noServices"] => some (n, FileC.noServices)
+    | .arr #[.str n, .str "servicesNotMap"] => some (n, FileC.servicesNotMap)
+    | .arr #[.str n, s] => some (n, FileC.services (servicesOfJson s))
+    | _ => none
+  | _ => []
+
+def resStr : Res → String
+  | .ok => "ok"
+  | .err c => "err:" ++ c
+  | .panic s => "panic:" ++ s
+  | .outOfFuel => "outOfFuel"
+
+def perms : List String → List (List String)
+  | [] => [[]]
+  | x :: xs => (perms xs).flatMap fun p => (List.range (p.length + 1)).map fun i => p.take i ++ [x] ++ p.drop i
+
+def dedupSorted (l : List String) : List String :=
+  ((l.toArray.qsort (· < ·)).toList).eraseDups
+
+/-- every outcome `ApplyExtends` can have, over all orders in which Go may range the services map -/
+def extendsOp : Handler := fun args =>
+  let svcs := servicesOfJson (getObj args "services")
+  let fs := fsOfJson (getObj args "files")
+  let main := getStr args "main"
+  let names := svcs.map Prod.fst
+  let orders := if names.length ≤ 5 then perms names else [names, names.reverse]
+  let outs := orders.map fun o => resStr (Ext.applyExtends fs main 64 o svcs)
+  Json.mkObj [("outcomes", Json.arr ((dedupSorted outs).map Json.str).toArray)]
+
+/-! ### include -/
+
+def incFsOfJson : Json → Inc.FS
+  | .arr a => a.toList.filterMap fun e => match e with
+    | .arr #[.str n, .arr entries] => some (n, entries.toList.map fun en => match en with
+        | .arr ps => ps.toList.filterMap fun p => match p with | .str s => some s | _ => none
+        | _ => [])
+    | _ => none
+  | _ => []
+
+def includeOp : Handler := fun args =>
+  let fs := incFsOfJson (getObj args "files")
+  Json.mkObj [("class", resStr (Inc.loadModel fs 64 (getStrList args "configs") []))]
+
+/-! ### depends_on -/
+
+def graphOfJson : Json → Dep.G
+  | .arr a => a.toList.filterMap fun e => match e with
+    | .arr #[.str n, .arr cs] => some (n, cs.toList.filterMap fun c => match c with | .str s => some s | _ => none)
+    | _ => none
+  | _ => []
+
+def checkCycleOp : Handler := fun args =>
+  let g := graphOfJson (getObj args "graph")
+  match Dep.checkCycle g (g.length + 1) with
+  | .ok => Json.mkObj [("ok", true)]
+  | .cycle p => Json.mkObj [("cycle", Json.arr (p.map Json.str).toArray)]
+  | .outOfFuel => Json.mkObj [("outOfFuel", true)]
+
+/-! ### alias expansion / `!reset` recording -/
+
+def natList (j : Json) : List Nat :=
+  match j with
+  | .arr a => a.toList.filterMap fun e => (e.getNat?).toOption
+  | _ => []
+
+def nodeOfJson (j : Json) : Reset.Node :=
+  let tag := getStr j "tag"
+  match getStr j "k" with
+  | "seq" => .seq tag (natList (getObj j "items"))
+  | "map" => .map tag (match getObj j "entries" with
+      | .arr a => a.toList.filterMap fun e => match e with
+        | .arr #[.str k, v] => (v.getNat?).toOption.map fun n => (k, n)
+        | _ => none
+      | _ => [])
+  | "alias" => .alias (getNat j "t")
+  | _ => .scalar tag
+
+def resetOp : Handler := fun args =>
+  let nodes := match getObj args "nodes" with
+    | .arr a => a.toList.map nodeOfJson
+    | _ => []
+  match Reset.run nodes (getNat args "root") 120 with
+  | .ok paths => Json.mkObj [("ok", Json.arr (paths.map fun p => Json.str (".".intercalate p)).toArray)]
+  | .error .cycle => Json.mkObj [("err", "cycle")]
+  | .error .outOfFuel => Json.mkObj [("outOfFuel", true)]
+  | .error .badIndex => bad "index"
+
+def handlers : List (String × Handler) := [("c01reset", resetOp),
+  ("c01convert", convertOp), ("c01convertTop", convertTopOp), ("c01fixEmpty", fixEmptyOp), ("c01omitEmpty", omitEmptyOp),
+  ("c01tracker", trackerOp), ("c01extends", extendsOp), ("c01include", includeOp), ("c01checkCycle", checkCycleOp)]
 
 end CV.Ops.C01
